@@ -13,10 +13,10 @@ echo "== suite with change (excluding demo)"
 cargo test --workspace --offline --no-fail-fast 2>&1 | grep -E "^test result|Running|FAILED" > $OUT/suite_with_change.txt
 SUITE_OK=$(grep -c "^test result: ok" $OUT/suite_with_change.txt); SUITE_FAIL=$(grep "^test result: FAILED" $OUT/suite_with_change.txt | wc -l)
 echo "== demo with change"
-cargo test --offline --test seed_demo 2>&1 | tail -30 > $OUT/demo_with_change.txt; grep -q "test result: FAILED\|panicked\|error\[" $OUT/demo_with_change.txt && DEMO_WITH=fail || DEMO_WITH=pass
+cargo test --offline ${SEED_FEATURES:-} --test seed_demo 2>&1 | tail -30 > $OUT/demo_with_change.txt; grep -q "test result: FAILED\|panicked\|error\[" $OUT/demo_with_change.txt && DEMO_WITH=fail || DEMO_WITH=pass
 git apply -R $OUT/patch.diff || exit 1
 echo "== demo without change"
-cargo test --offline --test seed_demo 2>&1 | tail -15 > $OUT/demo_without_change.txt; grep -q "^test result: ok" $OUT/demo_without_change.txt && DEMO_WITHOUT=pass || DEMO_WITHOUT=fail
+cargo test --offline ${SEED_FEATURES:-} --test seed_demo 2>&1 | tail -15 > $OUT/demo_without_change.txt; grep -q "^test result: ok" $OUT/demo_without_change.txt && DEMO_WITHOUT=pass || DEMO_WITHOUT=fail
 git apply $OUT/patch.diff
 echo "suite: ok-groups=$SUITE_OK failed-groups=$SUITE_FAIL (the only failing group must be seed_demo); demo with=$DEMO_WITH without=$DEMO_WITHOUT"
 echo "{\"id\": \"$ID\", \"suite_ok_groups\": $SUITE_OK, \"suite_failed_groups\": $SUITE_FAIL, \"demo_with_change\": \"$DEMO_WITH\", \"demo_without_change\": \"$DEMO_WITHOUT\"}" > $OUT/confirm.json
